@@ -17,7 +17,7 @@ type FileCase struct {
 	Meta     map[string]string `json:"meta,omitempty"`
 }
 
-func fileCaseSrc(c *FileCase) string { return Canon(c.File) }
+func fileCaseSrc(c *FileCase) string { return CanonMaybeDense(c.File) }
 
 func (c *FileCase) opts(optimize bool) Opts {
 	return Opts{Optimize: optimize, Auto: c.Auto, FontPath: "@repo", Switches: c.Switches}
